@@ -44,7 +44,7 @@ def g1_apportionment(ctx):
     prog = ctx.prog
     init = prog.find_func("BallotGenerator.__init__")
     bl = [n for n in astx.walk_own(init.node) if isinstance(n, ast.Assign) and astx.u(n.targets[0]) == "self.blocs"]
-    blocs_ok = len(bl) == 1 and astx.u(bl[0].value) == "list(self.bloc_voter_prop.keys())"
+    blocs_ok = len(bl) == 1 and astx.u(bl[0].value) == "list(self.bloc_voter_prop)"
     ctx.check(blocs_ok, init, bl[0] if bl else init.node, "self.blocs = the keys of bloc_voter_prop, in order", "", "self.blocs is not list(self.bloc_voter_prop.keys())")
     n = 0
     shapes = set()
@@ -75,7 +75,7 @@ def g1_apportionment(ctx):
                 if not oka:
                     # both lists reduce to equally long per-bloc blocks over the same bloc order
                     K, P = seqeval.evaluate_any(prog, f, keys, c), seqeval.evaluate_any(prog, f, props, c)
-                    canon = {"self.blocs", "list(self.bloc_voter_prop.keys())", "self.bloc_voter_prop.keys()", "self.bloc_voter_prop"}
+                    canon = {"self.blocs", "list(self.bloc_voter_prop)", "list(self.bloc_voter_prop.keys())", "self.bloc_voter_prop.keys()", "self.bloc_voter_prop"}
                     if K is not None and P is not None and len(K.elems) == len(P.elems) and (K.source == P.source or (blocs_ok and K.source in canon and P.source in canon)):
                         oka, why = True, f"per-bloc blocks of {len(K.elems)} over {K.source} / {P.source}"
                 shapes.add("blocs" if ks == {("keys", "self.bloc_voter_prop")} else "types")
@@ -97,7 +97,7 @@ def g1_apportionment(ctx):
         if K is None or P is None:
             ctx.undecided(f, calls[0], f"{f.short}: voter-type shares", f"the construction of `{astx.u(zp.args[0])[:40]}` / `{astx.u(calls[0].args[1])[:40]}` is not a per-bloc block this rule can evaluate")
             continue
-        canon = {"self.blocs", "list(self.bloc_voter_prop.keys())", "self.bloc_voter_prop.keys()", "self.bloc_voter_prop"}
+        canon = {"self.blocs", "list(self.bloc_voter_prop)", "list(self.bloc_voter_prop.keys())", "self.bloc_voter_prop.keys()", "self.bloc_voter_prop"}
         same_src = (K.source in canon and P.source in canon and blocs_ok) or K.source == P.source
         labels = [astx.const(e.elts[1]) if isinstance(e, ast.Tuple) and len(e.elts) == 2 and astx.is_name(e.elts[0], K.var) and astx.is_const(e.elts[1]) else None for e in K.elems]
 
@@ -140,7 +140,7 @@ RANKING_DRAWS = {
     # function -> list of (population text pattern, replace, size text)
     "short_name_PlackettLuce.generate_profile": [("non_zero_cands", False, None), ("zero_cands", False, None)],
     "AlternatingCrossover.generate_profile": [("bloc_cands", False, "len(bloc_cands)"), ("opposing_cands", False, "len(opposing_cands)")],
-    "CambridgeSampler.generate_profile": [("list(pref_interval_dict.interval.keys())", False, "len(pref_interval_dict.interval)")],
+    "CambridgeSampler.generate_profile": [("list(pref_interval_dict.interval)", False, "len(pref_interval_dict.interval)")],
     "slate_PlackettLuce.generate_profile": [("list(cands)", False, "len(cands)")],
     "slate_BradleyTerry.generate_profile": [("list(cands)", False, "len(cands)")],
     "name_Cumulative.generate_profile": [("non_zero_cands", True, "self.num_votes")],
